@@ -276,6 +276,9 @@ class Ctx:
             "known_finding_hits": st.known_hits,
             "exhaustive": bool(self.exhaustive),
         }
+        if not cov["samples"] and st.violations:
+            # the run ended at a violation before any case was sampled: the violating cases are the samples
+            cov["samples"] = [trim_sample({"violating_case": jsonable(sc) if not isinstance(sc, str) else sc, "message": msg[:300]}) for msg, sc in st.violations[:3]]
         cov.update(st.extra)
         cov.update(self.notes)
         ev = {
